@@ -235,8 +235,8 @@ def slices (body : Bytes) : List Nat → List Bytes
   | o :: o' :: rest => (body.drop o).take (o' - o) :: slices body (o' :: rest)
 
 /-- Multiple Service Packet body (after the path): number ≥ 1, offsets relative to the number field, the
-first right behind the offset table, strictly increasing, inside the body; every member a complete request -/
-def decodeMembers (body : Bytes) : Option (List Simple) :=
+first right behind the offset table, strictly increasing, inside the body: the members' byte strings -/
+def memberSlices (body : Bytes) : Option (List Bytes) :=
   match u16 body with
   | none => none
   | some (num, r) =>
@@ -245,8 +245,14 @@ def decodeMembers (body : Bytes) : Option (List Simple) :=
     | none => none
     | some (offs, _) =>
       if offs.head? = some (2 + 2 * num) ∧ increasing offs = true ∧ offs.getLast?.any (· < body.length) then
-        (slices body offs).mapM decodeSimple
+        some (slices body offs)
       else none
+
+/-- every member a complete request (a bundle is not a member of a bundle in this grammar) -/
+def decodeMembers (body : Bytes) : Option (List Simple) :=
+  match memberSlices body with
+  | none => none
+  | some ms => ms.mapM decodeSimple
 
 def decodeReq (bs : Bytes) : Option Req :=
   match bs with
@@ -257,6 +263,26 @@ def decodeReq (bs : Bytes) : Option Req :=
       | none => none
       | some (p, body) => (decodeMembers body).map (.multiple p ·)
     else (decodeSimple bs).map .simple
+
+/-- **The work of the Multiple Service Packet parser** (`device.py` `__multiple` / `state_multiple_service`): the
+parser of a request takes every byte of it (its `requests` state absorbs all that is left), then every member's
+bytes are parsed again by the target Object's parser -- and a member that is itself a Multiple Service Packet
+repeats the same.  `scanCost fuel bs` = symbols consumed by all these parsers together, `fuel` levels deep. -/
+def scanCost : Nat → Bytes → Nat
+  | 0, _ => 0
+  | fuel + 1, bs =>
+    bs.length +
+    match bs with
+    | [] => 0
+    | svc :: r0 =>
+      if svc = Generated.svcMultiple then
+        match decodeEpath false r0 with
+        | none => 0
+        | some (_, body) =>
+          match memberSlices body with
+          | none => 0
+          | some ms => (ms.map (scanCost fuel)).sum
+      else 0
 
 def simplePath : Simple → Path
   | .readTag p _ | .readFrag p _ _ | .writeTag p _ _ _ | .writeFrag p _ _ _ _
